@@ -35,6 +35,7 @@ TECHNIQUE = "Hypothesis + rule-based state machine against a model of disabled/e
 #: thorough tier: seed-dependent tasks are repeated under this many derived seeds (run.py); the listed task functions enumerate fixed domains
 THOROUGH_REPS = 8
 DETERMINISTIC_FNS = ()
+RULE += " Missing-hash calls are repeated after the context's policy was changed by load()/update(): still False, no exception, no work under the removed default."
 
 OTHER = ["md5_crypt", "sha256_crypt", "des_crypt", "mysql41", "pbkdf2_sha256", "ldap_salted_sha1", "hex_md5", "bsdi_crypt", "phpass", "sha512_crypt", "nthash"]
 DJ_OTHER = ["django_pbkdf2_sha256", "django_salted_sha1", "django_salted_md5", "hex_md5", "django_des_crypt"]
